@@ -151,7 +151,9 @@ Print Assumptions C15_total_lsf.
 (** ** Flux (extended).  The Flux header is informational ("#INFO (key) value";
     the resources themselves are passed to the Flux API at submission): the node
     line must name the effective node count (default 1), the walltime line the
-    walltime in seconds ([flux_seconds]: integer minutes, or [[H:]M:]S).  Every
+    walltime in seconds ([flux_declared_seconds]: a number -- int or integral float,
+    both admitted by the schema's "integer" -- or a digit text is minutes, otherwise
+    [[H:]M:]S).  Every
     launcher piece becomes "flux run -n P -N N -c C [-g G] [-o opts]" reading back
     to the requested counts ([want_flux]). *)
 Theorem C15_monitor_flux : forall c, c_be c = Flux -> C15_ok c (run_model c) = true.
@@ -174,7 +176,7 @@ Print Assumptions C15_flux_scheduled.
 Theorem C15_header_flux : forall c text, flux_header_reads_p c text ->
   first_line text = shebang_of (c_batch c) /\
   read_flux_info text (s "nodes") = effective_flux_nodes (c_batch c) (c_step c) /\
-  flux_walltime_ok (effective (c_batch c) (c_step c) RWalltime) (read_flux_info text (s "walltime")) = true.
+  flux_walltime_ok (flux_declared_seconds (c_step c)) (read_flux_info text (s "walltime")) = true.
 Proof. exact (fun c text H => H). Qed.
 Print Assumptions C15_header_flux.
 
@@ -339,4 +341,18 @@ Example ex_flux_in_domain :
   H15 ex_flux = true /\ schedulable (c_step ex_flux) = true /\ rejected ex_flux = false
   /\ read_flux_info (match run_model ex_flux with OScript sc => sc_text sc | _ => [] end) (s "walltime")
      = Some (s "3630.0").
+Proof. vm_compute. repeat split; reflexivity. Qed.
+
+(** an integral float walltime ([walltime: 30.0], admitted by the schema's "integer")
+    is a number of minutes for Flux and stays in the domain *)
+Definition ex_flux_float : case :=
+  {| c_be := Flux; c_batch := c_batch ex_flux; c_broker := s "0.49.0";
+     c_step := {| st_name := s "s1"; st_desc := s "d"; st_cmd := s "$(LAUNCHER) a.out"; st_restart := [];
+                  st_res := [(s "nodes", VInt 1); (s "procs", VInt 1); (s "walltime", VFloat 30)] |};
+     c_cmd := [PBare; PText (s " a.out")]; c_restart := [] |}.
+Example ex_flux_float_in_domain :
+  H15 ex_flux_float = true /\ rejected ex_flux_float = false
+  /\ flux_declared_seconds (c_step ex_flux_float) = Some 1800%N
+  /\ read_flux_info (match run_model ex_flux_float with OScript sc => sc_text sc | _ => [] end) (s "walltime")
+     = Some (s "1800").
 Proof. vm_compute. repeat split; reflexivity. Qed.
